@@ -14,6 +14,12 @@ CLAIMS = {
  "C16": ("History property by induction: add_tc / add_tm / remove_entry / remove_completed_entries verified against the state-machine spec sm_step on a tracker in an ARBITRARY state (open dict: any number of telecommands, arbitrary status records, step lists of any length) with a whole-view post-condition (own entry = sm_step, any other entry untouched, universally quantified other key); monotonicity lemmas over sm_step.", "DESIGN.md 5 C16"),
  "C08": ("TLV/LV: pack = 727.0-B-5 5.4 layout oracles for LV, generic TLV and the six concrete TLVs (abstract strings: chars vs octets), unpack of arbitrary octets, round trips with suffix, strict-prefix refusal, refusal of values > 255 octets, type-safety matrix over unpack/from_tlv/TlvHolder for every other TLV type, status-code helper totality.", "DESIGN.md 5 C08"),
  "C18": ("Reserved CFDP messages: nine builders pack = tlv(2, 'cfdp' + type + fields) oracle, decode/classification/get_* return exactly the original parameters incl. ID widths, other get_* return None, classifier total (never raises) over every value of 0..255 octets.", "DESIGN.md 5 C18"),
+ "C03": ("PUS TM pack = layout oracle for any timestamp length (symbolic), unpack post-conditions for arbitrary octets and symbolic timestamp_len (min-length, CRC gate, field extraction, accept-iff), round trip with suffix, Service17Tm wrapper, space-packet view, setter.", "DESIGN.md 5 C03"),
+ "C12": ("PDU factory: raw inspectors vs spec over arbitrary octets, dispatch from_raw == K.unpack for the selected kind (all octet strings, decoders abstracted by summaries), factory round trips for the eight kinds, 8x8 holder accessor matrix.", "DESIGN.md 5 C12"),
+ "C13": ("Per-call contract of parse_space_packets for an ARBITRARY queue (any number of chunks, any stream): result == reference scan, queue afterwards == exactly the undecidable tail; both loops carry side-car invariants (loop rule with checked havoc frame), reference scan is a well-founded ghost recursion; spec-level lemmas: registered packet emitted whole, junk skipped, shift and extension induction steps (chunking independence).", "DESIGN.md 5 C13"),
+ "C14": ("CDS short timestamp: integer clauses fully deductive (layout, decode of arbitrary octets, __add__ as total-millisecond arithmetic with overflow iff, day conversions), datetime as exact integer microseconds, float views in a real + IEEE-754 error-bound model.", "DESIGN.md 5 C14"),
+ "C15": ("RequestId over all 2^32 values (pack/as_u32/unpack/eq/hash), PacketFieldEnum, FailureNotice, VerificationParams, the eight service-1 report kinds per (subservice, widths): source-data layout oracle, decode with suffix, equality, repack, refusal iff, arbitrary input.", "DESIGN.md 5 C15"),
+ "C19": ("Sequence counters: in-memory provider by induction step over a symbolic state (all widths); file-backed provider over a ghost file system (open/readline/seek/write model, abstract decimal text): constructor, get_and_increment, new instance continues, FileNotFoundError iff, arbitrary text -> count or ValueError.", "DESIGN.md 5 C19"),
 }
 NOT_APPLICABLE = {}
 props = [json.loads(l)["id"] for l in open(os.path.join(V, "properties.jsonl"))]
